@@ -8,86 +8,86 @@ statement lists whose statements are dataset expressions or a dataset-level `cas
 namespace VtlModel.Sem
 open VtlModel
 
-def decDX : Nat → Sexp → Option DExpr
+def decDC01 : Nat → Sexp → Option DExpr
   | 0, _ => none
   | _+1, .list [.atom "ds", n] => (name? n).map .ds
   | k+1, .list [.atom "instr", d, pat, st, oc, out] => do
-      pure (.app1 (instrD (← decValue pat) (← decValue st) (← decValue oc) (← decOut out)) (← decDX k d))
+      pure (.app1 (instrD (← decValue pat) (← decValue st) (← decValue oc) (← decOut out)) (← decDC01 k d))
   | k+1, .list [.atom "mapm", d, body, out] => do
-      pure (.mapm (← decDX k d) (← decS (depth body + 1) body) (← decOut out))
+      pure (.mapm (← decDC01 k d) (← decS (depth body + 1) body) (← decOut out))
   | k+1, .list [.atom "zip", a, b, body, out] => do
-      pure (.zip (← decDX k a) (← decDX k b) (← decS (depth body + 1) body) (← decOut out))
-  | k+1, .list [.atom "filter", d, c] => do pure (.filter (← decDX k d) (← decS (depth c + 1) c))
+      pure (.zip (← decDC01 k a) (← decDC01 k b) (← decS (depth body + 1) body) (← decOut out))
+  | k+1, .list [.atom "filter", d, c] => do pure (.filter (← decDC01 k d) (← decS (depth c + 1) c))
   | k+1, .list [.atom "calc", d, .list items] => do
       let its ← items.mapM (fun it => match it with
         | .list [n, e] => do pure ((← name? n), (← decS (depth e + 1) e))
         | _ => none)
-      pure (.calc (← decDX k d) its)
-  | k+1, .list [.atom "keep", d, ns] => do pure (.keep (← decDX k d) (← decNames ns))
-  | k+1, .list [.atom "drop", d, ns] => do pure (.drop (← decDX k d) (← decNames ns))
+      pure (.calc (← decDC01 k d) its)
+  | k+1, .list [.atom "keep", d, ns] => do pure (.keep (← decDC01 k d) (← decNames ns))
+  | k+1, .list [.atom "drop", d, ns] => do pure (.drop (← decDC01 k d) (← decNames ns))
   | k+1, .list [.atom "rename", d, .list ps] => do
       let m ← ps.mapM (fun p => match p with
         | .list [a, b] => do pure ((← name? a), (← name? b))
         | _ => none)
-      pure (.rename (← decDX k d) m)
+      pure (.rename (← decDC01 k d) m)
   | _+1, _ => none
 
-inductive XBranch where
+inductive C01Branch where
   | sc (v : Value)
   | dset (e : DExpr)
 
-def decBranch (k : Nat) : Sexp → Option XBranch
+def decC01Branch (k : Nat) : Sexp → Option C01Branch
   | .list [.atom "sc", v] => (decValue v).map .sc
-  | e => (decDX k e).map .dset
+  | e => (decDC01 k e).map .dset
 
-structure XArm where
+structure C01Arm where
   cond : SExpr
   cds : DExpr
-  thn : XBranch
+  thn : C01Branch
 
-inductive XStmt where
+inductive C01Stmt where
   | expr (e : DExpr)
-  | cased (src : DExpr) (arms : List XArm) (els : XBranch)
+  | cased (src : DExpr) (arms : List C01Arm) (els : C01Branch)
 
-def decStmt : Sexp → Option XStmt
+def decC01Stmt : Sexp → Option C01Stmt
   | .list [.atom "cased", src, .list arms, els] => do
       let k := depth src + depth els + (arms.map depth).foldl max 0 + 2
       let as ← arms.mapM (fun a => match a with
         | .list [c, cds, t] => do
-            pure (XArm.mk (← decS (depth c + 1) c) (← decDX k cds) (← decBranch k t))
+            pure (C01Arm.mk (← decS (depth c + 1) c) (← decDC01 k cds) (← decC01Branch k t))
         | _ => none)
-      pure (.cased (← decDX k src) as (← decBranch k els))
-  | e => (decDX (depth e + 1) e).map .expr
+      pure (.cased (← decDC01 k src) as (← decC01Branch k els))
+  | e => (decDC01 (depth e + 1) e).map .expr
 
-def evalBranch (env : Env) : XBranch → R (Option DS × Value)
+def evalC01Branch (env : Env) : C01Branch → R (Option DS × Value)
   | .sc v => .ok (none, v)
   | .dset e => (evalD env e).map (fun d => (some d, .null))
 
-def evalStmt (env : Env) : XStmt → R DS
+def evalC01Stmt (env : Env) : C01Stmt → R DS
   | .expr e => evalD env e
   | .cased src arms els => do
       let s ← evalD env src
       let as ← arms.mapM (fun a => do
         let c ← evalD env a.cds
-        let (t, tv) ← evalBranch env a.thn
+        let (t, tv) ← evalC01Branch env a.thn
         pure (CaseArm.mk a.cond c t tv))
-      let (e, ev) ← evalBranch env els
+      let (e, ev) ← evalC01Branch env els
       caseD s as e ev
 
-def evalStmts (env : Env) : List (String × XStmt) → R Env
+def evalC01Stmts (env : Env) : List (String × C01Stmt) → R Env
   | [] => .ok env
   | (n, s) :: rest => do
-      let d ← evalStmt env s
-      evalStmts ((n, d) :: env) rest
+      let d ← evalC01Stmt env s
+      evalC01Stmts ((n, d) :: env) rest
 
-def handleX (req : Sexp) : Sexp :=
+def handleC01X (req : Sexp) : Sexp :=
   match req with
   | .list [.atom "evalx", .list dss, .list stmts, res] =>
       match dss.mapM decDS, stmts.mapM (fun s => match s with
-              | .list [n, e] => do pure ((← name? n), (← decStmt e))
+              | .list [n, e] => do pure ((← name? n), (← decC01Stmt e))
               | _ => none), name? res with
       | some env, some ss, some rn =>
-          match evalStmts env ss with
+          match evalC01Stmts env ss with
           | .ok env' => match env'.lookup rn with
                         | some d => encDS d
                         | none => encErr .name
@@ -95,9 +95,9 @@ def handleX (req : Sexp) : Sexp :=
       | _, _, _ => .list [.atom "bad-request"]
   | _ => handle req
 
-def handleLineX (line : String) : String :=
+def handleLineC01X (line : String) : String :=
   match Sexp.parse line with
-  | some r => (handleX r).toString
+  | some r => (handleC01X r).toString
   | none => "(bad-request)"
 
 end VtlModel.Sem
